@@ -6,19 +6,18 @@ from checklib import Check, Family
 import e2, build
 
 c = Check('C16')
-# E2: floating point bit-exact, every raw draw an input
+# E2 (CBMC, IEEE bit-exact) runs in a child process while the E1 families are explored
 src = os.path.join(build.VERIF, 'cbmc', 'c16_dice.c')
-e2.run_harness(c, c.d, 'dice-bit-exact-2^31', src, ['LIMIT=2147483648LL'], unwind=65, timeout=600, link_lib=True)
-if c.tier == 'thorough':
-    e2.run_harness(c, c.d, 'dice-bit-exact-2^52', src, ['LIMIT=4503599627370496LL'], unwind=65, timeout=1800, backend=('--sat-solver', 'cadical'), link_lib=True)
-
-# E2: the probability law implied by the alias table, IEEE bit-exact, probabilities on a grid of tenths (every vector of
-# three multiples of 0.05 within the accepted tolerance of one, in every order)
 asrc = os.path.join(build.VERIF, 'cbmc', 'c16_alias.c')
-e2.run_harness(c, c.d, 'alias-law-n3-twentieths', asrc, ['NN=3', 'GRID=20'], unwind=5, timeout=900, link_lib=True)
+specs = [dict(title='dice-bit-exact-2^31', src=src, defs=['LIMIT=2147483648LL'], unwind=65, timeout=600, link_lib=True),
+         # the probability law implied by the alias table: every vector of three multiples of 0.05 within the accepted tolerance of one, in every order
+         dict(title='alias-law-n3-twentieths', src=asrc, defs=['NN=3', 'GRID=20'], unwind=5, timeout=900, link_lib=True)]
 if c.tier == 'thorough':
-    e2.run_harness(c, c.d, 'alias-law-n2-thousandths', asrc, ['NN=2', 'GRID=1000'], unwind=5, timeout=1800, link_lib=True)
-    e2.run_harness(c, c.d, 'alias-law-n4-tenths', asrc, ['NN=4', 'GRID=10'], unwind=6, timeout=2400, link_lib=True)
+    specs += [dict(title='dice-bit-exact-2^52', src=src, defs=['LIMIT=4503599627370496LL'], unwind=65, timeout=1800, backend=('--sat-solver', 'cadical'), link_lib=True),
+              dict(title='alias-law-n2-thousandths', src=asrc, defs=['NN=2', 'GRID=1000'], unwind=5, timeout=1800, link_lib=True),
+              dict(title='alias-law-n4-tenths', src=asrc, defs=['NN=4', 'GRID=10'], unwind=6, timeout=2400, link_lib=True)]
+build.codegen(c.d); build.native_lib(c.d, san=True)       # shared by the replays of the child and the parent
+e2h = e2.spawn(c.d, specs)
 
 fams = []
 def fam(name, entry, tier='quick', witness=False, w=1, opts=None, **kw):
@@ -78,6 +77,7 @@ c.run_e1(fams, assumptions=['every call of cmb_random_sfc64 returns an arbitrary
                             'a branch whose feasibility the solver leaves undecided within 10 s is followed on both sides (every assertion on it is still decided, a violation still needs a model); such paths are counted as feasibility_undecided in the evidence parts',
                             'NOT applicable: "samples follow the stated distribution ... converge": a limit statement about infinitely many draws; the one exception decided here is the law implied by an alias table (a finite exact statement): E2, IEEE doubles, three probabilities on a grid of twentieths (thorough: two on thousandths, four on tenths)'],
          bounds=['dice: all a < b within +-2^31 (thorough 2^52) and every draw; loaded dice / alias tables with 1-3 (thorough 4) symbolic probabilities summing to one within 1e-3; geometric / negative binomial at p = 1 (thorough also 0.5)'])
+e2.collect(c, e2h)
 c.finish(functions=['cmb_random (header)', 'cmb_random_uniform', 'cmb_random_bernoulli', 'cmb_random_flip', 'cmb_random_triangular', 'cmb_random_dice', 'cmb_random_loaded_dice',
                     'cmb_random_alias_create/sample', 'cmb_random_pareto', 'cmb_random_binomial', 'cmb_random_geometric', 'cmb_random_negative_binomial', 'cmb_random_std_exponential (hot path)',
                     'cmb_random_std_normal (hot path)', 'cmi_random_exp_not_hot', 'cmi_random_nor_not_hot', 'cmb_random_normal', 'cmb_random_lognormal', 'cmb_random_logistic', 'cmb_random_cauchy', 'cmb_random_rayleigh', 'cmb_random_exponential', 'cmb_random_erlang',
